@@ -40,12 +40,31 @@ CONSTRUCTOR = {
 
 
 def enum_members(ci) -> Dict[str, ast.AST]:
+    """member name -> its value tuple, with module-level named literals (`_PARAM_PHI = "phi"`) read as the literals they name"""
+    import copy as _copy
+    counts: Dict[str, int] = {}
+    for st in ast.walk(ci.module.tree):
+        if isinstance(st, ast.Name) and isinstance(st.ctx, (ast.Store, ast.Del)):
+            counts[st.id] = counts.get(st.id, 0) + 1
+    consts: Dict[str, ast.AST] = {}
+    for st in ci.module.tree.body:
+        tg = st.targets[0] if isinstance(st, ast.Assign) and len(st.targets) == 1 else (st.target if isinstance(st, ast.AnnAssign) else None)
+        v = getattr(st, "value", None)
+        if isinstance(tg, ast.Name) and counts.get(tg.id) == 1 and isinstance(v, ast.Constant):
+            consts[tg.id] = v
+
+    class _K(ast.NodeTransformer):
+        def visit_Name(self, n):
+            return ast.copy_location(_copy.deepcopy(consts[n.id]), n) if isinstance(n.ctx, ast.Load) and n.id in consts else n
+
+    def lit(t):
+        return _K().visit(_copy.deepcopy(t)) if consts and any(isinstance(x, ast.Name) and x.id in consts for x in ast.walk(t)) else t
     out = {}
     for s in ci.node.body:
         if isinstance(s, ast.Assign) and len(s.targets) == 1 and isinstance(s.targets[0], ast.Name) and isinstance(s.value, ast.Tuple):
-            out[s.targets[0].id] = s.value
+            out[s.targets[0].id] = lit(s.value)
         elif isinstance(s, ast.AnnAssign) and isinstance(s.target, ast.Name) and isinstance(s.value, ast.Tuple):
-            out[s.target.id] = s.value
+            out[s.target.id] = lit(s.value)
     return out
 
 
